@@ -147,6 +147,9 @@ func (d *Data) deleteMetadata(ctx storage.VersionedCtx, meta Schema) (err error)
 		d.metadataMu.Lock()
 		defer d.metadataMu.Unlock()
 		delete(d.metadata, meta)
+		if meta == JSONSchema {
+			d.compiledSchema = nil // or the deleted schema keeps validating POSTs until a restart
+		}
 	}
 	return nil
 }
